@@ -316,4 +316,17 @@ func (e *Engine) newErrorOnce(name string) IfaceV {
 	return v
 }
 
-func (e *Engine) recordAccess(st *State, p Ptr, write bool, pos token.Pos) {}
+// recordAccess: lock-discipline audit. While objects are being watched (vn.Watch), every load,
+// store or map access to them must happen with at least one mutex held.
+func (e *Engine) recordAccess(st *State, p Ptr, write bool, pos token.Pos) {
+	if _, ok := st.ghost[fmt.Sprintf("watch:%d", p.obj)]; !ok {
+		return
+	}
+	if len(st.lockset) == 0 {
+		kind := "read"
+		if write {
+			kind = "write"
+		}
+		e.reportFinding(st, "lock-discipline/"+kind+"-without-lock", "assert", e.pos(pos), nil)
+	}
+}
